@@ -20,19 +20,37 @@ VERIF = os.path.dirname(os.path.dirname(os.path.abspath(__file__)))
 
 
 def sh(cmd, cwd=None, timeout=1800):
-    env = dict(os.environ, CARGO_NET_OFFLINE="true")
-    r = subprocess.run(cmd, cwd=cwd, shell=True, capture_output=True, text=True, timeout=timeout, env=env)
-    return r.returncode, r.stdout + r.stderr
+    env = dict(os.environ, CARGO_NET_OFFLINE="true", CARGO_BUILD_JOBS="6")
+    out = ""
+    rc = 1
+    for attempt in range(4):
+        r = subprocess.run(cmd, cwd=cwd, shell=True, capture_output=True, text=True, timeout=timeout, env=env)
+        rc, out = r.returncode, r.stdout + r.stderr
+        # builds are sometimes killed from outside on this loaded sandbox: retry those
+        if "signal: 15" in out or "SIGTERM" in out or "signal: 9" in out or "SIGKILL" in out or "(signal" in out and "cargo" in cmd and "test result" not in out:
+            continue
+        break
+    return rc, out
+
+
+RELATED = {
+    # checks that share the mechanism the property rests on (a violation may be attributed there)
+    "C02": ["C03", "C04"], "C04": ["C02", "C16"], "C03": ["C20"], "C06": ["C05", "C07", "C10"], "C07": ["C06", "C05"], "C09": ["C06"], "C10": ["C06", "C11", "C15"],
+    "C11": ["C10", "C15", "C23"], "C12": ["C14"], "C13": ["C14", "C15"], "C14": ["C13", "C12"], "C15": ["C13", "C03", "C20"], "C16": ["C17", "C18", "C04"],
+    "C17": ["C16", "C18", "C20"], "C18": ["C16", "C17"], "C19": ["C04", "C23"], "C20": ["C01", "C03", "C17"], "C21": ["C20"], "C22": ["C02", "C04"], "C23": ["C11", "C19", "C18"],
+    "C01": ["C20"], "C05": ["C06"], "C08": ["C13"],
+}
 
 
 def main():
     prop, k = sys.argv[1], sys.argv[2]
-    props = [prop]
+    props = [prop] + RELATED.get(prop, [])
     for i, a in enumerate(sys.argv):
         if a == "--props":
             props = sys.argv[i + 1].split(",")
-    wt = "/tmp/wt/%s" % prop
-    out = "/tmp/wt/%s-out" % prop
+    root = os.environ.get("SEED_ROOT", "/tmp/wt")
+    wt = "%s/%s" % (root, prop)
+    out = "%s/%s-out" % (root, prop)
     diff = os.path.join(out, "change%s.diff" % k)
     demo = os.path.join(out, "demo%s.rs" % k)
     notes = os.path.join(out, "change%s.md" % k)
